@@ -59,6 +59,7 @@ type HamtInput struct {
 	Probes  []string `json:"probes,omitempty"`  // non-member keys to look up
 	Faults  [][2]int `json:"faults,omitempty"`
 	Hostile *HShard `json:"hostile,omitempty"`
+	NoModel bool    `json:"nomodel,omitempty"` // too large to evaluate in Coq on every run: oracle only
 	// hashbits
 	Hash  []byte `json:"hash,omitempty"`
 	Off   int    `json:"off,omitempty"`
@@ -286,6 +287,33 @@ func readShard(rep *Report, in HamtInput, st *Store, root cid.Cid, expected map[
 			res = "Panic"
 		}
 		obs.lookups = append(obs.lookups, fmt.Sprintf("(%s, %s, %s, %s)", coqBytes([]byte(k)), coqBytes(mhash(k)), res, coqNList(loads)))
+	}
+	// ---- the same node asked again and again (no per-node state may leak between lookups)
+	if !faulty {
+		shared, err := fresh()
+		if err == nil {
+			for _, k := range keys {
+				for rep := 0; rep < 3; rep++ {
+					id := -1
+					o := guard(func() error {
+						v, err := shared.LookupByString(k)
+						if err != nil {
+							return err
+						}
+						id = linkIDExt(v)
+						return nil
+					})
+					want, member := expected[k]
+					if o.Class == "panic" {
+						fail("C13", "lookup-panic", "lookup panicked", "value or error", "panic")
+					} else if member && (o.Class != "ok" || id != want) {
+						fail("C02", "repeated-lookup", "a repeated lookup of a member name on the same node does not return its link", want, fmt.Sprint(o.Class, " ", id, " (attempt ", rep+1, ")"))
+					} else if !member && o.Class != "notfound" {
+						fail("C02", "repeated-lookup-absent", "a repeated lookup of a non-member name on the same node is not reported not-found", "notfound", fmt.Sprint(o.Class, " (attempt ", rep+1, ")"))
+					}
+				}
+			}
+		}
 	}
 	// ---- iteration
 	node, err := fresh()
@@ -525,7 +553,7 @@ func runHamtInput(rep *Report, in HamtInput, cf *CaseFile) {
 		}
 		if o.Class != "ok" {
 			// too deep (colliding names) is the only legitimate error
-			if cf != nil {
+			if cf != nil && !in.NoModel {
 				cf.Add(fmt.Sprintf("mk_hamt %s None [] [] None None", src), in)
 			}
 			distinct := map[string]bool{}
@@ -642,7 +670,7 @@ func runHamtInput(rep *Report, in HamtInput, cf *CaseFile) {
 				}
 			}
 		}
-		if cf != nil {
+		if cf != nil && !in.NoModel {
 			fl := make([]string, len(in.Faults))
 			for i, f := range in.Faults {
 				fl[i] = fmt.Sprintf("(%d, %d)", f[0], f[1])
@@ -909,6 +937,15 @@ func scnHamt(rep *Report, rng *Rng, tier string, outdir string) {
 	for _, n := range []int{0, 3, 40} {
 		ns := names(n)
 		add(HamtInput{Mode: "auto", Entries: mkEntries(ns), Probes: probesFor(ns)})
+	}
+	// just below the auto-shard threshold with links of two lengths (CIDv0 34 bytes, CIDv1 36 bytes):
+	// the choice plain / sharded must not depend on which entry comes first
+	{
+		var es []HEntry
+		for i := 0; i < 5600; i++ { // 5600 * (11 + 35 on average) = 257600 < 262144
+			es = append(es, HEntry{Name: fmt.Sprintf("file-%06d", i), ID: i % 50, Tsize: int64(i), V0: i%2 == 0})
+		}
+		add(HamtInput{Mode: "auto", Entries: es, Probes: []string{"nope"}, NoModel: true})
 	}
 	if tier == "thorough" {
 		for _, n := range []int{5600, 5800} { // estimate = sum(len(name)+36) around 262144
